@@ -23,6 +23,7 @@ Verdicts are TLC's; Python generates, drives, records and dispatches.
 import json
 import os
 import random
+import shutil
 import sys
 from concurrent.futures import ThreadPoolExecutor
 
@@ -334,6 +335,16 @@ def selftest(chk):
 # ---------------------------------------------------------------------------
 def run():
     chk = Check('C02', 'translation_validation')
+    try:
+        run_check(chk)
+    finally:
+        # records and generated modules of this run (the replay files under
+        # /verif/replays are self-contained)
+        if chk._env is not None:
+            shutil.rmtree(chk.scratch, ignore_errors=True)
+
+
+def run_check(chk):
     sz = TIERS[chk.tier]
     rng = random.Random(chk.seed * 7919 + 2)
     chk.env
@@ -480,6 +491,7 @@ def run():
                     bit_identical_runs=exact2, plan=s2_plan,
                     covered=covered,
                     not_covered=notcov,
+                    known_not_automatic=sorted(listing['not_automatic']),
                     not_planned_this_tier=len(allc - planned)),
         trusted_base=TRUSTED,
         samples=[dict(kind='probe', module=sample_job['jid'],
